@@ -47,6 +47,9 @@ F = Fraction
 # ----------------------------------------------------------------------------------------
 GRIDS_DYADIC = [(4, 4), (4, 8), (8, 4), (2, 8), (8, 8), (4, 16)]
 GRIDS_GENERIC = [(3, 3), (3, 7), (5, 4), (6, 5), (5, 10), (3, 8), (7, 3), (10, 4), (6, 6), (4, 9), (9, 2)]
+# strongly anisotropic grids (one spacing more than 4x the other): the blend strip of the coarse direction is wider
+# than two cells of the fine one, so a cushion taken from the wrong direction sends sampled shifts outside the fit window
+GRIDS_ANISO = {'dyadic': [(2, 16), (16, 2), (2, 32), (4, 32)], 'generic': [(2, 9), (3, 13), (13, 3), (11, 2), (2, 12), (3, 16)]}
 VECTS = [
     # (a1vect, a2vect, box-vects or None, tag)
     ([1.0, 0.0, 0.0], [0.0, 1.0, 0.0], None, 'rect'),
@@ -922,6 +925,12 @@ def _seq_case(ctx, name, v, g, spec, rng):
     ctx.driver.ask('onew ' + settings_wire(K0, b0, T0, st))
     _eval_obj(ctx, name, pn, x, d, True, rep, 0)
     for step in range(1, rng.randint(2, 5) + 1):
+        if rng.random() < 0.2:
+            x2, d2 = rescaled_profile(rng, pn, x)
+            x, d = np.array(x2), np.array(d2)
+            ops.append({'kind': 'profile', 'x': x2, 'd': d2})
+            _eval_obj(ctx, name, pn, x, d, True, rep, step)
+            continue
         op = rand_op(rng, st, len(x))
         ops.append(op)
         if op['kind'] == 'set':
@@ -1002,7 +1011,8 @@ def correspond(ctx):
     for it in range(n_g):
         vects = VECTS[it % len(VECTS)]
         regime = 'dyadic' if (it // len(VECTS) + it) % 2 == 0 else 'generic'
-        specs.append(gen_gamma_spec(rng, regime=regime, vects=vects, dup=(it % 3 == 1), delta=(it % 4 < 2)))
+        grid = rng.choice(GRIDS_ANISO[regime]) if it % 4 == 3 else None
+        specs.append(gen_gamma_spec(rng, regime=regime, vects=vects, grid=grid, dup=(it % 3 == 1), delta=(it % 4 < 2)))
     for spec in specs:
         g = call(mk_gamma, spec)
         if isinstance(g, Raised):
@@ -1473,6 +1483,10 @@ def _apply_op(np, mod, pn, op, st, v, g, x, d):
         if isinstance(r, Raised):
             return r, x, d, True
         return None, np.asarray(pn.x).copy(), np.asarray(pn.disregistry).copy(), False
+    if op['kind'] == 'profile':
+        # no edit of the object: the next evaluation uses another profile with the SAME number of points and a
+        # different grid spacing (anything remembered per length of the profile would be stale)
+        return None, np.array(op['x']), np.array(op['d']), True
     if op['kind'] == 'load':
         src = new_pn(v, g, op['settings'])
         src.x, src.disregistry = np.array(op['x']), np.array(op['d'])
@@ -1731,11 +1745,23 @@ def _profile_json(rng, pn, dyadic=True, n=None):
     return x.tolist(), d.tolist()
 
 
-def gen_search_ops(rng, st, pn):
-    """edit sequence for the search: always contains evaluate -> change the cut-off -> evaluate."""
+def rescaled_profile(rng, pn, x):
+    """a profile with as many points as `x` on a grid with another spacing."""
+    np = _np()
+    s_ = rng.choice([0.5, 2.0, 1.5, 0.25])
+    _, d2 = gen_profile(rng, pn, n=len(x), dyadic=True)
+    return (np.asarray(x, dtype=float) * s_).tolist(), d2.tolist()
+
+
+def gen_search_ops(rng, st, pn, x):
+    """edit sequence for the search (setters, solve(**kwargs), load, same-length profile on another grid)."""
     ops = []
     cur = dict(st)
     for _ in range(rng.randint(2, 4)):
+        if rng.random() < 0.25:
+            x2, d2 = rescaled_profile(rng, pn, x)
+            ops.append({'kind': 'profile', 'x': x2, 'd': d2})
+            continue
         op = rand_op(rng, cur, 0)
         if op['kind'] == 'solve':
             op.pop('newprofile')
@@ -1765,7 +1791,8 @@ def search(ctx, broken):
     for it in range(n_g):
         vects = VECTS[it % len(VECTS)]
         regime = 'dyadic' if (it // len(VECTS) + it) % 2 == 0 else 'generic'
-        spec = gen_gamma_spec(rng, regime=regime, vects=vects, dup=(it % 3 == 1), delta=(it % 2 == 0))
+        grid = rng.choice(GRIDS_ANISO[regime]) if it % 3 == 2 else None
+        spec = gen_gamma_spec(rng, regime=regime, vects=vects, grid=grid, dup=(it % 3 == 1), delta=(it % 2 == 0))
         dy = regime == 'dyadic'
         m = rng.choice([1, 3, 6])
         qs = [[cm.dyadic(rng, -3, 3, 5), cm.dyadic(rng, -3, 3, 5)] if dy else [rng.uniform(-3, 3), rng.uniform(-3, 3)] for _ in range(m)]
@@ -1800,7 +1827,7 @@ def search(ctx, broken):
             x, d = _profile_json(rng, pn0, dyadic=(k % 2 == 0), n=rng.randint(5, 9))
             case = {'op': 'sdvpn', 'system': name, 'spec': spec, 'settings': st, 'x': x, 'd': d, 'ops': []}
             if k % 4 == 0:
-                case['ops'] = gen_search_ops(rng, st, pn0)
+                case['ops'] = gen_search_ops(rng, st, pn0, x)
             run_case(ctx, case)
         for k in range(ctx.n(2, 8) * big):
             x, d = _profile_json(rng, pn0, dyadic=True, n=rng.randint(5, 10))
